@@ -59,10 +59,10 @@ CHECKS['C10'] = dict(text='Bounded symbolic execution of the real InsertStatemen
                   '(rectangular VALUES list matching the column list, rows and cells in call order by term identity, default-values form only without columns and source) are checked against a reference model.',
              note=TRUST_M + 'Oracle: spec() and parse_insert() in props/c10.py. Known finding: columns() re-declared after a source was accepted.',
              technique='symbolic execution of rustc MIR (history forking, symbolic cell values) checked against a reference model; z3 decides path feasibility and term identities', ref='6/C10', engine=ENGINE_M)
-CHECKS['C15'] = dict(text='Bounded symbolic execution of SelectStatement::take / Clone / clear_selects / from_clear / reset_limit / reset_offset / clear_order_by and WindowStatement::take with the crate own derived PartialEq and the three renderers: '
+CHECKS['C15'] = dict(text='Bounded symbolic execution of SelectStatement::take / Clone / clear_selects / from_clear / reset_limit / reset_offset / clear_order_by, WindowStatement::take, and take / Clone of the seven schema statement builders (table create / alter / drop / rename / truncate, index create, foreign key create) with the crate own derived PartialEq and the three renderers: '
                   'for every subset of at most 2 (quick; 3, and all 2^16 for take, thorough) of the 16 SelectStatement fields populated, every operation and 6 follow-up changes after clone, the result is compared structurally (crate PartialEq run from MIR) and textually with independently rebuilt statements: '
                   'taken = before, left-behind = new(), clone = source and unaffected by later changes to the other copy, a clear removes exactly its clause.',
-             note=TRUST_M + 'Schema-statement builders (Table*/Index*/ForeignKey* take()) are not covered by this check (see DESIGN.md).',
+             note=TRUST_M + 'Schema statements have no PartialEq; for them equal means rendering identically on every backend that has the statement (subsets of at most 2 optional builder calls quick, all subsets thorough). Insert / Update / Delete have no take().',
              technique='symbolic execution of rustc MIR (field-subset and operation forking, symbolic payloads) with structural and textual comparison', ref='6/C15', engine=ENGINE_M)
 CHECKS['C01'] = dict(text='Bounded symbolic execution of build() through the crate own SqlWriterValues and the whole prepare_* renderer of the three backends over statement families (SELECT / INSERT / UPDATE / DELETE / WITH) whose optional clauses - sub-selects in FROM / IN / UNION / CTE, VALUES lists of arity 1..4, joins, '
                   'CASE, custom templates incl. a Postgres template that reorders $2/$1, ORDER BY FIELD, NULLS emulation, LIMIT/OFFSET, window frames, upsert, RETURNING - are chosen by the engine (all combinations within each toggle group) and whose values are distinct symbolic terms: '
